@@ -11,6 +11,7 @@ BR, TR, RD = "ion/binaryreader.go", "ion/textreader.go", "ion/reader.go"
 BS, TK, SK = "ion/bitstream.go", "ion/tokenizer.go", "ion/skipper.go"
 ST, CT, UM, MS = "ion/symboltable.go", "ion/catalog.go", "ion/unmarshal.go", "ion/marshal.go"
 TU, CO, RL, FD = "ion/textutils.go", "ion/consts.go", "ion/readlocalsymboltable.go", "ion/fields.go"
+BITS, DEC = "ion/bits.go", "ion/decimal.go"
 
 # ---- ERR-GUARD-W / ERR-STICKY-W
 m("guardw-drop-guard-writeclob", "ERR-GUARD-W", ["C12"], "break", BW,
@@ -483,6 +484,61 @@ m("decnegzero-any-zero", "ORD-DECNEGZERO", ["C03"], "break", BS,
 m("sortmap-refactor-constructor", "ORD-SORTMAP", ["C16"], "refactor", MS,
   "\tw := NewTextWriterOpts(&buf, TextWriterQuietFinish)\n\te := Encoder{\n\t\tw:    w,\n\t\topts: EncodeSortMaps,\n\t}\n", "\tw := NewTextWriterOpts(&buf, TextWriterQuietFinish)\n\te := *NewEncoderOpts(w, EncodeSortMaps)\n", "", True,
   "the Encoder is built by its constructor instead of a literal (seeded change C11-r2-2 showed this to alarm falsely)")
+
+
+# ---- rules written after the second seeding round
+UT, PR = "cmd/ion-go/util.go", "cmd/ion-go/process.go"
+m("flagor-payload-8-bits", "NUM-FLAGOR", ["C01", "C04"], "break", BITS,
+  "\tbuf[i] = 0x80 | byte(v&0x7F)", "\tbuf[i] = 0x80 | byte(v&0xFF)", "appendVarUint", True, "the last VarUInt octet keeps 8 payload bits under the end flag")
+m("flagor-refactor-operand-order", "NUM-FLAGOR", ["C01", "C04"], "refactor", BITS,
+  "\tbuf[i] = 0x80 | byte(v&0x7F)", "\tbuf[i] = byte(v&0x7F) | 0x80", "", True, "operands swapped")
+m("zerosign-float-shortcut", "NUM-ZEROSIGN", ["C01", "C04"], "break", BW,
+  "\tif val == 0 && !math.Signbit(val) {", "\tif val == 0 {", "WriteFloat", True, "-0e0 is written as 0x40, positive zero")
+m("zerosign-refactor-signbit-first", "NUM-ZEROSIGN", ["C01", "C04"], "refactor", BW,
+  "\tif val == 0 && !math.Signbit(val) {", "\tif !math.Signbit(val) && val == 0 {", "", True, "sign tested first")
+m("decsign-string-prefix-from-coefficient", "ORD-DECSIGN", ["C01", "C04", "C14"], "break", DEC,
+  "\t\tif len(str) > 0 && str[0] == '-' {", "\t\tif d.n.Sign() < 0 {", "Decimal).String", True, "-0.0 is formatted with the layout of a non-negative number (three independent seeded changes)")
+m("decsign-refactor-flag-then-coefficient", "ORD-DECSIGN", ["C01", "C04", "C14"], "refactor", DEC,
+  "\t\tif len(str) > 0 && str[0] == '-' {", "\t\tif d.isNegZero || d.n.Sign() < 0 {", "", True, "the coefficient is consulted only where the flag is known to be false")
+m("bigdiv-euclidean-round", "NUM-BIGDIV", ["C14"], "break", DEC,
+  "\t\tquo, rem := new(big.Int).QuoRem(ud.n, pow, new(big.Int))", "\t\tquo, rem := new(big.Int).DivMod(ud.n, pow, new(big.Int))", "DivMod", True, "Euclidean division of a possibly negative coefficient")
+m("intsize-int64-arm-reads-int32", "TAB-INTSIZE", ["C13", "C17", "C20"], "break", UM,
+  "\tcase Int64:\n\t\tval, err := d.r.Int64Value()", "\tcase Int64:\n\t\tval, err := d.r.IntValue()", "IntValue where the size", True, "every int outside int32 fails to decode into interface{}")
+m("openflags-no-trunc", "TAB-OPENFLAGS", ["C20"], "break", UT,
+  "\treturn os.OpenFile(outf, os.O_RDWR|os.O_TRUNC|os.O_CREATE, 0644)", "\treturn os.OpenFile(outf, os.O_RDWR|os.O_CREATE, 0644)", "OpenOutput", True, "the tail of an existing longer output file survives")
+m("paramused-marshalbinary-drops-ssts", "OWN-PARAMUSED", ["C11", "C16"], "break", MS,
+  "\tbuf := bytes.Buffer{}\n\tw := NewBinaryWriter(&buf, ssts...)\n\te := Encoder{w: w}", "\tbuf := bytes.Buffer{}\n\tw := NewBinaryWriter(&buf)\n\te := Encoder{w: w}", "parameter ssts", True, "MarshalBinary ignores the shared tables it is given")
+m("sepstate-finish-resets-without-newline", "ORD-SEPSTATE", ["C04", "C12"], "break", TW,
+  "\t\tw.needsSeparator = false\n\t\tw.emptyStream = true\n\t}\n\n\tw.clear()", "\t}\n\tw.needsSeparator = false\n\tw.emptyStream = true\n\n\tw.clear()", "Finish", True, "quiet Finish forgets the separator: 1 Finish 2 gives 12 (two independent seeded changes)")
+m("sepstate-refactor-begin-write-first", "ORD-SEPSTATE", ["C04", "C12"], "refactor", TW,
+  "\tw.needsSeparator = false\n\tw.emptyContainer = true\n\n\treturn writeRawChar(c, w.out)", "\terr := writeRawChar(c, w.out)\n\tw.needsSeparator = false\n\tw.emptyContainer = true\n\treturn err", "", True, "the bracket is written before the state is reset")
+m("exactfirst-return-on-fold", "ORD-EXACTFIRST", ["C16", "C17"], "break", UM,
+  "\t\tif f == nil && strings.EqualFold(ff.name, name) {\n\t\t\tf = ff\n\t\t}", "\t\tif strings.EqualFold(ff.name, name) {\n\t\t\treturn ff\n\t\t}", "EqualFold", True, "the first fold match wins over a later exact one (two independent seeded changes)")
+m("exactfirst-refactor-two-loops", "ORD-EXACTFIRST", ["C16", "C17"], "refactor", UM,
+  "\tvar f *field\n\tfor i := range fields {\n\t\tff := &fields[i]\n\t\tif ff.name == name {\n\t\t\treturn ff\n\t\t}\n\t\tif f == nil && strings.EqualFold(ff.name, name) {\n\t\t\tf = ff\n\t\t}\n\t}\n\treturn f",
+  "\tfor i := range fields {\n\t\tif fields[i].name == name {\n\t\t\treturn &fields[i]\n\t\t}\n\t}\n\tfor i := range fields {\n\t\tif strings.EqualFold(fields[i].name, name) {\n\t\t\treturn &fields[i]\n\t\t}\n\t}\n\treturn nil", "", True, "an exact pass, then a fold pass")
+m("stopchar-timestamp-comment-blind", "OWN-STOPCHAR", ["C02"], "break", TK,
+  "func (t *tokenizer) readTimestampFinish(c int, w fmt.Stringer) (string, error) {\n\tok, err := t.isStopChar(c)\n\tif err != nil {\n\t\treturn \"\", err\n\t}\n\tif !ok {", "func (t *tokenizer) readTimestampFinish(c int, w fmt.Stringer) (string, error) {\n\tok := isStopChar(c)\n\tif !ok {", "readTimestampFinish", True, "2001T//c is rejected")
+m("wsset-iswhitespace-forgets-tab", "TAB-WSSET", ["C02"], "break", TU,
+  "\tcase ' ', '\\t', '\\n', '\\r':\n\t\treturn true\n\t}\n\treturn false", "\tcase ' ', '\\n', '\\r':\n\t\treturn true\n\t}\n\treturn false", "isWhitespace", True, "a tab is not whitespace")
+m("appendeach-skip-non-strings", "ORD-APPENDEACH", ["C03", "C10"], "break", RL,
+  "\t\t} else {\n\t\t\tsyms = append(syms, \"\")\n\t\t}\n\t}\n\n\terr := r.StepOut()", "\t\t}\n\t}\n\n\terr := r.StepOut()", "readSymbols", True, "a non-string element takes no ID: later symbols are off by one")
+m("lstfirstann-any-position", "TAB-LSTFIRSTANN", ["C03", "C10"], "break", BR,
+  "\treturn len(as) > 0 && as[0].Text != nil && *as[0].Text == \"$ion_symbol_table\"", "\tfor _, a := range as {\n\t\tif a.Text != nil && *a.Text == \"$ion_symbol_table\" {\n\t\t\treturn true\n\t\t}\n\t}\n\treturn false", "isIonSymbolTable", True, "a::$ion_symbol_table::{} is taken for a symbol table")
+m("lstfirstann-refactor-local", "TAB-LSTFIRSTANN", ["C03", "C10"], "refactor", BR,
+  "\treturn len(as) > 0 && as[0].Text != nil && *as[0].Text == \"$ion_symbol_table\"", "\tif len(as) == 0 {\n\t\treturn false\n\t}\n\tfirst := as[0]\n\treturn first.Text != nil && *first.Text == \"$ion_symbol_table\"", "", True, "the first annotation copied to a local")
+m("bsclear-stepout-fast-path", "ORD-BSCLEAR", ["C03", "C08"], "break", BS,
+  "\tif diff > 0 {\n\t\tif err := b.skip(diff); err != nil {\n\t\t\treturn err\n\t\t}\n\t}\n\n\tb.state = b.stateAfterValue()\n\tb.clear()", "\tb.state = b.stateAfterValue()\n\tif diff == 0 {\n\t\treturn nil\n\t}\n\tif err := b.skip(diff); err != nil {\n\t\treturn err\n\t}\n\tb.clear()", "StepOut", True, "stepping out of a fully consumed container leaves code/null/len of the last child")
+m("bsclear-refactor-clear-first", "ORD-BSCLEAR", ["C03", "C08"], "refactor", BS,
+  "\t\t}\n\t}\n\n\tb.state = b.stateAfterValue()\n\tb.clear()\n\n\treturn nil", "\t\t}\n\t}\n\n\tb.clear()\n\tb.state = b.stateAfterValue()\n\n\treturn nil", "", True, "clear() before the state store")
+m("tokfinish-stepout-no-finish", "ORD-TOKFINISH", ["C08"], "break", TR,
+  "\t// Finish off whatever value *inside* the container that we're currently reading.\n\t_, err := t.tok.FinishValue()\n\tif err != nil {\n\t\tt.explode(err)\n\t\treturn err\n\t}\n", "", "SkipContainerContents", True, "StepOut from a half-read child container scans from inside it")
+m("acctype-intsize-null-first", "TAB-ACCTYPE", ["C13", "C17"], "break", RD,
+  "\tif r.valueType != IntType {\n\t\treturn NullInt, &UsageError{\"Reader.IntSize\", \"value is not a int\"}\n\t}\n\tif r.value == nil {\n\t\treturn NullInt, nil\n\t}", "\tif r.value == nil {\n\t\treturn NullInt, nil\n\t}\n\tif r.valueType != IntType {\n\t\treturn NullInt, &UsageError{\"Reader.IntSize\", \"value is not a int\"}\n\t}", "IntSize", True, "IntSize answers NullInt, nil for null.string")
+m("sortmap-comparator-not-injective", "ORD-SORTMAP", ["C16"], "break", MS,
+  "\t\tsort.Slice(keys, func(i, j int) bool { return keys[i].s < keys[j].s })", "\t\tsort.Slice(keys, func(i, j int) bool { return len(keys[i].s) < len(keys[j].s) })", "field emission", True, "keys of equal length keep their random map order")
+m("sortmap-refactor-comparator-flipped", "ORD-SORTMAP", ["C16"], "refactor", MS,
+  "\t\tsort.Slice(keys, func(i, j int) bool { return keys[i].s < keys[j].s })", "\t\tsort.Slice(keys, func(i, j int) bool { return keys[j].s > keys[i].s })", "", True, "the same order, spelled the other way round")
 
 os.makedirs(os.path.dirname(os.path.abspath(__file__)), exist_ok=True)
 with open(os.path.join(os.path.dirname(os.path.abspath(__file__)), "core.json"), "w") as f:
